@@ -803,6 +803,9 @@ def check_stored_len(rep, mod, offi_with_len, floor=1):
         if k in seen:
             continue
         seen.add(k)
+        if any('moved_' in fmt({k: 1}) for k in d if k != 1):
+            # the residual mentions what a callee moved: the callee's effect on type0_block_len is not summarised, so nothing is decided here
+            raise AnalysisBroken('R-STORED-LEN-BALANCE: decode_literal_block moves the counters through a callee (%s): not decided' % fmt(d))
         R.instance()
         R.check(not d, mod.where(f, ri), 'decode_literal_block: at this return total_out + type0_block_len differs from its entry value by %s: bytes were delivered without being taken off the stored block\'s remaining '
                 'length (the block then over-runs into the next block header, or a complete block is reported as pending)' % fmt(d), key='R-STORED-LEN-BALANCE|%s' % fmt(d),
